@@ -132,6 +132,7 @@ type Interp struct {
 	Intervals       bool         // propagate float intervals through arithmetic (interp_intervals.go)
 	NonNeg          map[int]bool // atoms known to be >= 0 (answers of distance oracles)
 	Positive        map[int]bool // atoms taken to be > 0 (a stated restriction of the rule that sets them)
+	Infinitesimal   map[int]bool // positive atoms smaller than every positive quantity built from the others (one-ulp nudges)
 	inputLen        int
 }
 
